@@ -44,6 +44,8 @@ type FuncContract struct {
 	NoInlineCheck bool
 	ClausePropsReq map[int][]string
 	WaitInv []string
+	Reachable []string // exits that must not be refuted as unreachable (vacuity guard)
+	AssumeAfter map[string][]string // callee short name -> input-domain assumptions taken right after each such call
 	NoCallPre bool // callee preconditions are not checked inside this function (listed as an open hole)
 	ObjInv []string // object invariant: assumed at entry / proved at exit of the body; hidden from callers in other packages
 	AtCall map[string][]string // callee short name -> assertions checked immediately before each such call
@@ -92,6 +94,7 @@ type Contracts struct {
 	Conds  []*CondDecl
 	Files  []string
 	byFn   map[*ssa.Function]*FuncContract
+	External map[string]*FuncContract // assumed contracts on dependencies, keyed by short function name
 }
 
 func (c *Contracts) lookupFn(f *ssa.Function) *FuncContract {
@@ -105,7 +108,7 @@ func (c *Contracts) lookupFn(f *ssa.Function) *FuncContract {
 }
 
 func loadContracts(root string) (*Contracts, error) {
-	cs := &Contracts{Funcs: map[string]*FuncContract{}, Preds: map[string]*PredDef{}, byFn: map[*ssa.Function]*FuncContract{}}
+	cs := &Contracts{Funcs: map[string]*FuncContract{}, Preds: map[string]*PredDef{}, byFn: map[*ssa.Function]*FuncContract{}, External: map[string]*FuncContract{}}
 	var files []string
 	filepath.Walk(root, func(p string, info os.FileInfo, err error) error { //nolint:errcheck
 		if err != nil {
@@ -140,7 +143,7 @@ func pkgPathOf(root, file string) string {
 var clauseKeywords = map[string]bool{
 	"props": true, "requires": true, "ensures": true, "modifies": true, "loop": true, "arith": true,
 	"nosafety": true, "role": true, "entry": true, "trusted": true, "witness": true, "lemma": true,
-	"exitlocks": true, "replay": true, "waitinv": true, "lockschange": true, "like": true, "noframe": true, "atcall": true, "invariant": true, "nocallpre": true,
+	"exitlocks": true, "replay": true, "waitinv": true, "lockschange": true, "like": true, "noframe": true, "atcall": true, "invariant": true, "nocallpre": true, "assumeafter": true, "reachable": true,
 }
 
 func (cs *Contracts) parseFile(root, file string) error {
@@ -174,6 +177,10 @@ func (cs *Contracts) parseFile(root, file string) error {
 				return fmt.Errorf("%s:%d: duplicate contract for %s", file, ln+1, rest)
 			}
 			cs.Funcs[pkg+"."+rest] = cur
+			if strings.HasPrefix(rest, "ext:") {
+				cs.External[strings.TrimPrefix(rest, "ext:")] = cur
+				cur.Trusted = "external: assumed contract on a dependency (T3)"
+			}
 			lastClause = nil
 			continue
 		case "end":
@@ -305,6 +312,20 @@ func (cs *Contracts) parseFile(root, file string) error {
 			cur.NoFrame = true
 		case "nocallpre":
 			cur.NoCallPre = true
+		case "reachable":
+			cur.Reachable = append(cur.Reachable, rest)
+			lastClause = &cur.Reachable[len(cur.Reachable)-1]
+		case "assumeafter":
+			f := strings.SplitN(rest, " ", 2)
+			if len(f) != 2 {
+				return fmt.Errorf("%s:%d: bad assumeafter clause", file, ln+1)
+			}
+			if cur.AssumeAfter == nil {
+				cur.AssumeAfter = map[string][]string{}
+			}
+			cur.AssumeAfter[f[0]] = append(cur.AssumeAfter[f[0]], strings.TrimSpace(f[1]))
+			lst := cur.AssumeAfter[f[0]]
+			lastClause = &lst[len(lst)-1]
 		case "invariant":
 			cur.ObjInv = append(cur.ObjInv, rest)
 			lastClause = &cur.ObjInv[len(cur.ObjInv)-1]
